@@ -84,6 +84,25 @@ def shard(p):
             isfact = a_[3] or b_[3] or c_[3]
             for law, q1, q2, const in inst:
                 checks.append((law, q1, q2, const, isfact or x[3] or y[3]))
+        # products in which ONE unit recurs in all three operands, so that its power accumulates (au^-2 * au^-2 * s ...): the
+        # multiplicative laws on exactly the operands whose intermediate results differ most between the two groupings (seed C13-e)
+        for _ in range(p["n_triples"] // 4):
+            e = V.pick(rng)
+            ops3 = []
+            for _k in range(3):
+                fs = [(e, rng.choice([-3, -2, -2, -1, 1, 2, 3]))]
+                if rng.random() < 0.4:
+                    o = V.pick(rng)
+                    if o["key"] != e["key"]:
+                        fs.append((o, rng.choice([1, -1])))
+                xs, x = mag(rng)
+                if x == 0:
+                    xs = "3"
+                ops3.append("%s %s" % (xs, G.text(fs, rng)))
+            A, X, Y = ops3
+            checks.append(("mul-assoc", "(%s * %s) * %s" % (A, X, Y), "%s * (%s * %s)" % (A, X, Y), None, False))
+            checks.append(("mul-comm", "(%s * %s) * %s" % (A, X, Y), "%s * (%s * %s)" % (Y, X, A), None, False))
+            checks.append(("mul-assoc", "(%s / %s) / %s" % (A, X, Y), "%s / (%s * %s)" % (A, X, Y), None, False))
         reqs = []
         for law, q1, q2, const, _ in checks:
             reqs.append({"op": "query", "q": q1})
